@@ -286,14 +286,14 @@ def run(ctx, scratch):
             battery('exh_und_%d' % n, n, E, roots_all=True)
     g4 = list(und_with_loops(4))
     if quick:
-        g4 = rng.sample(g4, 110)
+        g4 = rng.sample(g4, 320)
     for E in g4:
         battery('exh_und_4', 4, E, roots_all=not quick, light=quick)
     g5 = list(und_with_loops(5, loops=False))
-    g5 = rng.sample(g5, 40) if quick else g5
+    g5 = rng.sample(g5, 120) if quick else g5
     for E in g5:
         battery('exh_und_5', 5, E, light=True)
-    for _ in range(15 if quick else 800):
+    for _ in range(50 if quick else 800):
         S = rng.choice(g5 if not quick else list(und_with_loops(5, loops=False)))
         E = sorted(set(S) | {(i, i) for i in range(5) if rng.random() < 0.3})
         battery('exh_und_5_loops', 5, E, light=True)
@@ -303,16 +303,16 @@ def run(ctx, scratch):
             battery('exh_dir_%d' % n, n, E, roots_all=True)
     g3 = list(gen.all_directed(3, loops=True))
     if quick:
-        g3 = rng.sample(g3, 90)
+        g3 = rng.sample(g3, 200)
     for E in g3:
         battery('exh_dir_3', 3, E, roots_all=not quick)
     pairs4 = [(i, j) for i in range(4) for j in range(4)]
-    for _ in range(50 if quick else 1500):
+    for _ in range(120 if quick else 1500):
         loops = rng.random() < 0.3
         E = [p for p in pairs4 if (loops or p[0] != p[1]) and rng.random() < rng.choice([0.2, 0.4, 0.6])]
         battery('exh_dir_4', 4, E, light=True)
     # ---- structured random graphs (n <= 9: cycle enumeration is exponential)
-    for _ in range(60 if quick else 900):
+    for _ in range(150 if quick else 900):
         directed = rng.random() < 0.5
         fam = rng.choice(gen.FAMILIES)
         nmax = 7 if quick else 9
